@@ -97,6 +97,36 @@ func renderPage(files map[string]string, page string, data any, opts ...vuego.Lo
 	}
 }
 
+// renderPageVue is renderPage through the engine's own entry point (Vue.Render): the data stays the root data of the stack
+func renderPageVue(files map[string]string, page string, data any, opts ...vuego.LoadOption) renderResult {
+	mfs := fstest.MapFS{}
+	for n, c := range files {
+		mfs[n] = &fstest.MapFile{Data: []byte(c), ModTime: time.Unix(1700000000, 0)}
+	}
+	done := make(chan renderResult, 1)
+	go func() {
+		var res renderResult
+		defer func() {
+			if e := recover(); e != nil {
+				res.Panic = fmt.Sprint(e)
+			}
+			done <- res
+		}()
+		var buf bytes.Buffer
+		err := vuego.VerifVue(vuego.NewFS(mfs, opts...)).Render(&buf, page, data)
+		res.Out = buf.String()
+		if err != nil {
+			res.Err = err.Error()
+		}
+	}()
+	select {
+	case r := <-done:
+		return r
+	case <-time.After(10 * time.Second):
+		return renderResult{Timeout: true}
+	}
+}
+
 func (r renderResult) canon() map[string]any {
 	switch {
 	case r.Timeout:
